@@ -99,6 +99,20 @@ def rescale(mesh, s):
         r[1], r[2], r[3] = float(r[1]) * s, float(r[2]) * s, float(r[3]) * s
 
 
+# far from the origin (in units of the cell size; decimal parts so that the
+# products with decimal scales round): UTM-like coordinates
+OFFSETS = [(432100.5, 5412345.25, 120.125), (1e7 + 0.3, -3e6 + 0.7, 5e5 + 0.1),
+           (-2.0 ** 20, 2.0 ** 22 + 0.5, 2.0 ** 18), (1e5 + 0.1, 1e5 + 0.2, -1e5 - 0.3)]
+
+
+def translate(mesh, off, s):
+    """x -> x + off * s in binary64 (one rounding per coordinate; every lattice
+    line still maps to ONE float, so boxes stay boxes); 2D meshes keep z const"""
+    for r in mesh['nodes']:
+        r[1], r[2], r[3] = (float(r[1]) + off[0] * s, float(r[2]) + off[1] * s,
+                            float(r[3]) + off[2] * s)
+
+
 def det3(a, b, c):
     return (a[0] * (b[1] * c[2] - b[2] * c[1]) - a[1] * (b[0] * c[2] - b[2] * c[0])
             + a[2] * (b[0] * c[1] - b[1] * c[0]))
@@ -167,8 +181,8 @@ def tol_of(q):
         mx = max([abs(F(x)) for row in q['values'].values() for x in row] + [F(0)])
     # implicit weights come from femio's area/volume kernels, some of which
     # accumulate in float32 (prism/hex centroid kernels): 2^-20 there
-    bits = 20 if (q['kind'] == 'e2n' and q['mode'] == 'mean' and q['weight'] == 'implicit') \
-        else TOL_BITS
+    bits = 20 if (q['kind'] == 'e2n' and q['mode'] == 'mean' and q['weight'] == 'implicit'
+                  and q.get('f32_kernel', True)) else TOL_BITS
     return (1 + mx) / 2 ** bits
 
 
@@ -224,6 +238,10 @@ def expected_e2n(mesh, q, eids, weights):
 def oracle(mesh, q, r):
     """None | 'unsupported' | description of the violated clause"""
     tags = mesh.get('tags', {})
+    far_f32 = (q.get('kind') == 'e2n' and q.get('weight') == 'implicit' and q.get('mode') == 'mean'
+               and q.get('f32_kernel') and bool(tags.get('offset')))
+    if 'exc' in r and far_f32 and r['exc'] == 'ValueError' and 'Negative metric' in r.get('msg', ''):
+        return 'volume-kernel-origin-fan'
     if 'exc' in r:
         if q['kind'] == 'n2e' and r['exc'] == 'ValueError' and \
                 len(set(len(c) for _, rows in mesh['blocks'] for _, c in rows)) > 1:
@@ -276,6 +294,8 @@ def oracle(mesh, q, r):
                 return 'grand total not conserved'
     if not bad:
         return None
+    if far_f32:
+        return 'volume-kernel-origin-fan'
     if q['mode'] == 'mean' and q['weight'] == 'implicit' and len(mesh['blocks']) > 1 \
             and not blocks_sorted(mesh):
         exp2 = expected_e2n(mesh, q, eids, scattered_metrics(mesh, eids))
@@ -348,7 +368,7 @@ def coq_check(ctx, cases, results, name):
         out[c['id']] = []
         cur, cur_mesh = [], None
         for qi, q in enumerate(c['queries']):
-            if q['kind'] == 'mod':
+            if q['kind'] == 'mod' or q.get('oracle_only'):
                 continue
             mk = q.get('_m', 0) if 'meshes' in c else 0
             if cur and mk != cur_mesh:
@@ -403,7 +423,11 @@ def queries_for(rng, mesh):
     second = any('2' in t for t, _ in mesh['blocks'])
     qs = []
     w = rng.choice([1, 2, 3])
-    qs.append({'kind': 'n2e', 'data': [[rng.randint(-9, 9) for _ in range(w)] for _ in nodes]})
+    qs.append({'kind': 'n2e', 'data': [[rng.randint(-9, 9) for _ in range(w)] for _ in nodes],
+               'dtype': rng.choice(['float', 'int', 'int32']), 'by_name': rng.random() < 0.3})
+    # flags / layer numbers: bool and small-integer nodal fields
+    qs.append({'kind': 'n2e', 'data': [[rng.randint(0, 1) for _ in range(w)] for _ in nodes],
+               'dtype': rng.choice(['bool', 'int']), 'by_name': rng.random() < 0.3})
     a = [rng.randint(-3, 3) for _ in range(3)]
     b = rng.randint(-5, 5)
     # the affine field is evaluated exactly and rounded once to a float; the
@@ -418,17 +442,28 @@ def queries_for(rng, mesh):
         return {str(e): [(k if (c == 0 and const_col) else rng.randint(-9, 9)) for c in range(w)]
                 for e in eids}
     o1s = [False, True] if second else [False]
+    f32 = any(t in ('hex', 'prism', 'pyr', 'hex2') for t, _ in mesh['blocks'])
+    far = bool(mesh.get('tags', {}).get('offset'))
     for o in o1s:
         qs.append({'kind': 'e2n', 'mode': 'mean', 'weight': 'false', 'order1': o,
                    'values': values(rng.random() < 0.5)})
+        ws = rng.choice([1.0, 1.0, 1.0] + WEIGHT_SCALES)
         qs.append({'kind': 'e2n', 'mode': 'mean', 'weight': 'explicit', 'order1': o,
-                   'weights': (lambda ws: {str(e): float(rng.randint(1, 9)) * ws for e in eids})(
-                       rng.choice([1.0, 1.0] + WEIGHT_SCALES)),
+                   'weights': {str(e): float(rng.randint(1, 9)) * ws for e in eids},
+                   'wdtype': 'int' if (ws == 1.0 and rng.random() < 0.6) else 'float',
                    'values': values(rng.random() < 0.5)})
-        qs.append({'kind': 'e2n', 'mode': 'mean', 'weight': 'implicit', 'order1': o,
-                   'values': values(rng.random() < 0.5)})
+        q = {'kind': 'e2n', 'mode': 'mean', 'weight': 'implicit', 'order1': o,
+             'values': values(rng.random() < 0.5), 'f32_kernel': f32}
+        if f32 and far:
+            # hex/prism/pyr volume kernels (float32, fan from the origin) are not
+            # translation invariant on the unchanged tree: oracle only
+            q['oracle_only'] = True
+        qs.append(q)
         qs.append({'kind': 'e2n', 'mode': 'effective', 'weight': 'false', 'order1': o,
                    'values': values(False)})
+    for q in qs:
+        if q['kind'] == 'e2n':
+            q['vdtype'] = rng.choice(['float', 'int', 'int'])
     return qs
 
 
@@ -463,6 +498,10 @@ def gen_cases(ctx):
         if sc != 1.0:
             rescale(mesh, sc)
         mesh['tags']['scale'] = sc
+        if sc >= 1e-4 and ctx.rng.random() < 0.4:
+            off = ctx.rng.choice(OFFSETS)
+            translate(mesh, off, sc)
+            mesh['tags']['offset'] = list(off)
         cases.append({'id': len(cases), 'mesh': mesh, 'queries': queries_for(ctx.rng, mesh)})
     # history stream on ONE object: conversions / connectivity assignment
     # (fem_data.elements.data = rows of other elements: shapes stay valid) / the
@@ -609,8 +648,8 @@ def report(ctx, cases, ev, do_shrink=True):
             cls = re.sub(r'[\d(].*', '', d).strip()[:70]
             sig = {'fn': q['kind'], 'mode': q.get('mode'), 'weight': q.get('weight'),
                    'defect': cls, 'several_types': len(c['mesh']['blocks']) > 1}
-            if d == 'mixed-metric-order':
-                sig = {'fn': 'e2n', 'weight': 'implicit', 'defect': 'mixed-metric-order'}
+            if d in ('mixed-metric-order', 'volume-kernel-origin-fan'):
+                sig = {'fn': 'e2n', 'weight': 'implicit', 'defect': d}
             small, sqi = c, qi
             is_known = any(f.get('property') == PID and f.get('status') == 'open' and
                            all(sig.get(k) == v for k, v in f.get('match', {}).items())
@@ -746,6 +785,9 @@ def main(ctx):
         ctx.count('n_types:' + str(len(c['mesh']['blocks'])))
         ctx.count('blocks_id_sorted:' + str(blocks_sorted(c['mesh'])))
         ctx.count('length_scale:%g' % tg.get('scale', 1.0))
+        ctx.count('offset_from_origin:' + ('%.3g' % max(abs(x) for x in tg['offset'])
+                                           if tg.get('offset') else '0'))
+        ctx.count('node_order:' + str(tg.get('node_order')))
         if tg.get('malformed'):
             ctx.count('malformed:' + tg['malformed'])
         ctx.count('object:' + ('history-with-connectivity-assignment' if c.get('history')
@@ -755,6 +797,12 @@ def main(ctx):
                 continue
             nq += 1
             ctx.count('query:' + q['kind'] + (':' + q['mode'] + ':' + q['weight'] if q['kind'] == 'e2n' else ''))
+            if q.get('oracle_only'):
+                ctx.count('tie:oracle-only (float32 origin-fan volume kernel far from the origin)')
+            if q['kind'] == 'n2e':
+                ctx.count('nodal_dtype:' + q.get('dtype', 'float') + (':by-name' if q.get('by_name') else ''))
+            else:
+                ctx.count('elemental_dtype:' + q.get('vdtype', 'float'))
             if q.get('weights'):
                 ctx.count('explicit_weight_magnitude:1e%d' % round(
                     __import__('math').log10(max(q['weights'].values()))))
